@@ -3,7 +3,7 @@
    The screen is what the independent interpreter TermGrid makes of the characters written. *)
 From RichModel Require Import Prelude Cells TermGrid Live SpecLive.
 From RichGen Require Import LiveCodes.
-From RichProofs Require Import TermGridP LiveP LiveP2.
+From RichProofs Require Import TermGridP LiveP LiveP2 LiveP3.
 
 (* (1) erase_clears: position_cursor for a frame of h rows, interpreted with the cursor on the last
    of h non-blank rows (under `pre` further rows), blanks exactly those h rows and leaves the cursor
@@ -59,7 +59,7 @@ Proof. exact screen_invariant. Qed.
 Print Assumptions C10_screen_invariant.
 
 Example C10_screen_invariant_nonvacuous :
-  let c := mkCfg false false OEllipsis 12 3 None None true false in
+  let c := mkCfg false false OEllipsis 12 3 None None true false false false false in
   ops_ok c (st0 c (w_lines 2))
     [Print (w_lines 1); Start; Refresh; Print (w_lines 4); Update (w_lines 7) true; Log (w_lines 1);
      Update [] false; Print (w_lines 1); Update (w_lines 1) true; Start; Stop; Print (w_lines 1)] = true.
@@ -95,6 +95,38 @@ Theorem C10_cleanup_on_raise_flags : forall c f0 pre body,
 Proof. exact block_restores_flags. Qed.
 Print Assumptions C10_cleanup_on_raise_flags.
 
+(* (3') cleanup_on_raise at full strength, stated with the spec checker that is also run on the
+   implementation: after `with display: body` -- every fault index for render and get_renderable,
+   raising user renderables, frames of ANY height (fitting or not), restarts inside the body -- the hook
+   stack and the redirection are as before AND the replayed characters leave the cursor visible. *)
+Theorem C10_cleanup_on_raise : forall c f0 pre body,
+  c_progress c = false \/ c_start_guarded c = true ->
+  lines_ok f0 = true -> forallb lines_ok pre = true -> forallb (op_text c) body = true ->
+  let s := fst (run_block c f0 pre body) in
+  cleanup_ok_b (Hn c) 0 (hooks s) (negb (redir s)) (out s) = true.
+Proof. exact block_cleanup. Qed.
+Print Assumptions C10_cleanup_on_raise.
+
+(* ... and the exception propagates: if the faulty render / get_renderable call was reached anywhere
+   in the block (start, body, stop), the block raises; PrintRaise raises by definition of `step` *)
+Theorem C10_exception_propagates : forall c f0 pre body,
+  fired c (fst (run_block c f0 pre body)) = true -> snd (run_block c f0 pre body) = true.
+Proof. exact block_propagates. Qed.
+Print Assumptions C10_exception_propagates.
+
+Example C10_exception_propagates_nonvacuous :
+  let c := mkCfg false true OEllipsis 12 4 (Some 2%nat) None true false false false false in
+  fired c (fst (run_block c (w_lines 2) [w_lines 1] [Refresh; Print (w_lines 1); Refresh; Print (w_lines 1)])) = true.
+Proof. vm_compute. reflexivity. Qed.
+
+(* the cursor is hidden exactly while the display is started: every free-form history, faults,
+   restarts and frames of any height included *)
+Theorem C10_cursor_hidden_iff_started : forall c f0 ops,
+  lines_ok f0 = true -> forallb (op_text c) ops = true ->
+  let s := fst (run_ops c (st0 c f0) ops) in cursor_vis_ok_b (Hn c) (started s) (out s) = true.
+Proof. exact cursor_vis_any_history. Qed.
+Print Assumptions C10_cursor_hidden_iff_started.
+
 (* the code in /repo today satisfies the hypothesis (breaks if the guard is removed again) *)
 Example C10_start_guarded_today : progress_start_guarded = true.
 Proof. reflexivity. Qed.
@@ -108,12 +140,17 @@ Theorem C10_cleanup_progress_start_asis_refuted : exists c f0 pre body,
 Proof. exists (d18_cfg false), (w_lines 1), [], []. split; [reflexivity|exact d18_asis_refuted]. Qed.
 Print Assumptions C10_cleanup_progress_start_asis_refuted.
 
-(* (4) after_stop for a transient display whose last frame is as tall as the page or taller: false
-   (D23), with or without the forced "visible" *)
+(* (4) after_stop for a transient display whose last frame is as tall as the page or taller: false of
+   the code as found (D23), with or without the forced "visible" ... *)
 Theorem C10_after_stop_transient_tall_refuted : forall guard,
-  view_of (d23_cfg guard) (fst (run_ops (d23_cfg guard) (st0 (d23_cfg guard) (w_lines 5)) d23_ops)) = false.
+  view_of (d23_cfg guard false) (d23_run guard false 5) = false.
 Proof. intros []; [exact d23_guarded_still_refuted|exact d23_asis_refuted]. Qed.
 Print Assumptions C10_after_stop_transient_tall_refuted.
+(* ... and true of the repaired variant (no forced "visible" for a transient display, its last frame
+   cropped to H-1 rows: T3 facts live_stop_visible_unless_transient, live_transient_final_room); in
+   general the repaired frame meets the side condition of C10_after_stop by C10_overflow_handled_fits *)
+Example C10_after_stop_transient_tall_repaired : view_of (d23_cfg true true) (d23_run true true 5) = true.
+Proof. exact d23_repaired_ok. Qed.
 
 (* excluded by hypothesis everywhere above, and why: no overflow handling in these two cases *)
 Theorem C10_progress_too_tall_refuted :
@@ -125,6 +162,15 @@ Proof. exact visible_too_tall_refuted. Qed.
 
 (* a second start() after stop() reuses the stale shape: the kept frame / printed lines are erased *)
 Theorem C10_restart_refuted : forall tr,
-  view_of (rs_cfg tr) (fst (run_ops (rs_cfg tr) (st0 (rs_cfg tr) (w_lines 2)) rs_ops)) = false.
+  view_of (rs_cfg tr false) (fst (run_ops (rs_cfg tr false) (st0 (rs_cfg tr false) (w_lines 2)) rs_ops)) = false.
 Proof. exact restart_refuted. Qed.
 Print Assumptions C10_restart_refuted.
+(* repaired (stop() forgets the shape, T3 fact *_stop_resets_shape): the same history is fine, and in
+   general `ops_ok` then admits start() after stop(), so C10_screen_invariant covers restarts *)
+Example C10_restart_repaired : forall tr,
+  view_of (rs_cfg tr true) (fst (run_ops (rs_cfg tr true) (st0 (rs_cfg tr true) (w_lines 2)) rs_ops)) = true.
+Proof. exact restart_repaired_ok. Qed.
+Example C10_restart_in_side_condition : forall tr,
+  ops_ok (rs_cfg tr true) (st0 (rs_cfg tr true) (w_lines 2)) rs_ops = true
+  /\ ops_ok (rs_cfg tr false) (st0 (rs_cfg tr false) (w_lines 2)) rs_ops = false.
+Proof. intros []; vm_compute; split; reflexivity. Qed.
